@@ -26,6 +26,18 @@ import (
 //
 // Whole-run invariant (stated from the logs alone, not from the plan): every acked delivery was
 // handled (handler returned nil) or has a successful Publish of its UUID on the poison topic.
+//
+// Filters with memory (classes '+stateful'): f(e) is not a function of e; "an error the filter accepts" is
+// what the filter answered when it was asked about this failure. How often the middleware asks is not
+// specified. With the answers A the filter gave for one failure:
+//
+//	all of A are yes          -> the poison rows above
+//	all of A are no           -> the filtered-out row above
+//	A has a yes and a no      -> the filter both accepted and rejected the failure: either row is backed by an
+//	(or A is empty)              answer, so the one that matches what was observed at the poison publisher is
+//	                             demanded in full - a Publish call => the poison rows (exactly one, complete, nil
+//	                             only after it succeeded), no Publish call => the error comes back unchanged.
+//	                             What no row allows is the mixture: success reported although nothing was published.
 
 func sameErr(a, b error) bool {
 	if a == nil || b == nil {
@@ -89,7 +101,18 @@ func isPoisonKey(k string) bool {
 	return false
 }
 
-func expectedSettlement(a *attemptObs) (string, string) {
+func expectedSettlement(a *attemptObs, stateful bool) (string, string) {
+	if stateful && a.err != nil {
+		// filter with memory: from what was observed at the poison publisher (whether that path was open is judgeAttempt's business)
+		switch {
+		case len(a.calls) == 0:
+			return "nack", "handler failed and nothing was published to the poison topic"
+		case a.calls[0].Err != nil:
+			return "nack", "poison publish failed"
+		default:
+			return "ack", "published to the poison topic"
+		}
+	}
 	switch {
 	case a.err == nil:
 		return "ack", "handler succeeded"
@@ -110,6 +133,33 @@ func judge(res *vlib.Result, w *world, cfg *config, nm []names) {
 		res.Fail("panic", "%s", p)
 	}
 	res.Count("filter_calls", w.filterCalls)
+	res.Count("filter_calls_with_nil_error", w.filterNilErr)
+	if w.stateful {
+		res.Count("stateful_filter_cases", 1)
+		res.Count("filter_calls_outside_any_failure", w.filterUnattributed)
+		if w.filterAmbiguous > 0 {
+			res.Inconclusive("%d answers of the filter with memory could not be attributed to one handler invocation", w.filterAmbiguous)
+		}
+		for _, ms := range w.order {
+			for _, a := range ms.attempts {
+				yes, _ := countAnswers(a.answers)
+				a.accept = a.err != nil && yes > 0 // for the description of the case only
+			}
+		}
+	}
+	if cfg.Variant == "names" {
+		res.Count("names_cases", 1)
+		for _, h := range cfg.Handlers {
+			if h.Name == "" {
+				res.Count("names_handlers_with_empty_name", 1)
+			}
+			if h.Topic == "" {
+				res.Count("names_handlers_with_empty_subscribe_topic", 1)
+			}
+			res.Count("names_publisher_"+h.PubKind, 1)
+			res.Count("names_subscriber_"+h.SubKind, 1)
+		}
+	}
 	for _, ms := range w.order {
 		n := nm[0]
 		if cfg.Mode == "router" && ms.plan.Handler >= 0 {
@@ -144,7 +194,7 @@ func judge(res *vlib.Result, w *world, cfg *config, nm []names) {
 			switch {
 			case last.err == nil:
 				res.Count("msgs_handled", 1)
-			case last.accept && !last.plan.PubFail:
+			case !w.stateful && last.accept && !last.plan.PubFail, w.stateful && len(last.calls) == 1 && last.calls[0].Err == nil:
 				res.Count("msgs_salvaged_to_poison_topic", 1)
 			default:
 				res.Count("msgs_still_failing", 1)
@@ -185,6 +235,11 @@ func countSharedOrigins(res *vlib.Result, w *world) {
 func judgeAttempt(res *vlib.Result, cfg *config, ms *msgState, a *attemptObs, n names) {
 	where := fmt.Sprintf("%s message %q attempt %d (handler error kind %q: %q, filter %s=%v, poison publisher fails=%v)",
 		cfg.Mode, ms.plan.UUID, a.idx, a.plan.ErrKind, a.reason, cfg.Filter, a.accept, a.plan.PubFail)
+	stateful := cfg.Variant == "stateful"
+	if stateful {
+		where = fmt.Sprintf("%s message %q attempt %d (handler error kind %q: %q, filter with memory %s(%s) answered %q for this failure, poison publisher fails=%v)",
+			cfg.Mode, ms.plan.UUID, a.idx, a.plan.ErrKind, a.reason, cfg.Filter, cfg.FilterParam, answersText(a.answers), a.plan.PubFail)
+	}
 	if cfg.Variant != "" {
 		origin := fmt.Sprintf("consumed by handler #%d %q", ms.plan.Handler, n.Handler)
 		if ms.plan.Handler < 0 {
@@ -209,6 +264,37 @@ func judgeAttempt(res *vlib.Result, cfg *config, ms *msgState, a *attemptObs, n 
 	}
 	res.Events += len(a.calls)
 	expectPublish := a.err != nil && a.accept
+	if stateful && a.err != nil {
+		yes, no := countAnswers(a.answers)
+		res.Count("stateful_failures", 1)
+		switch {
+		case yes > 0 && no == 0:
+			expectPublish = true
+			res.Count("stateful_failures_accepted", 1)
+		case no > 0 && yes == 0:
+			expectPublish = false
+			res.Count("stateful_failures_rejected", 1)
+		default:
+			// both rows of the model are backed by an answer (or the filter was not asked): the observed one is demanded in full
+			expectPublish = len(a.calls) > 0
+			if yes > 0 {
+				res.Count("stateful_failures_with_contradicting_answers", 1)
+			} else {
+				res.Count("stateful_failures_filter_not_asked", 1)
+			}
+		}
+		if len(a.answers) > 1 {
+			res.Count("stateful_failures_asked_more_than_once", 1)
+		}
+		if expectPublish && len(a.calls) == 0 && a.gotSet && a.gotErr == nil {
+			res.Fail("swallowed-without-publish", "%s: the filter accepted, nothing was published to the poison topic, yet the middleware returned nil (the message is acked and lost)", where)
+			return
+		}
+		if !expectPublish && a.gotSet && a.gotErr == nil {
+			res.Fail("swallowed-without-publish", "%s: nothing was published to the poison topic, yet the middleware returned nil (the message is acked and lost)", where)
+			return
+		}
+	}
 
 	if !expectPublish {
 		// success, or an error the filter rejects: pass-through, nothing published
@@ -352,7 +438,7 @@ func judgeSettlement(res *vlib.Result, cfg *config, ms *msgState) {
 		got := vlib.Settled(c)
 		res.Events++
 		res.Count("settled_"+got, 1)
-		want, why := expectedSettlement(a)
+		want, why := expectedSettlement(a, cfg.Variant == "stateful")
 		where := fmt.Sprintf("router message %q delivery %d (handler error kind %q, filter %s=%v, poison publisher fails=%v)",
 			ms.plan.UUID, i, a.plan.ErrKind, cfg.Filter, a.accept, a.plan.PubFail)
 
@@ -412,6 +498,7 @@ func describe(res *vlib.Result, w *world, cfg *config) {
 		Reason    string `json:"reason,omitempty"`
 		Outputs   string `json:"outputs"`
 		Accept    bool   `json:"filter_accepts"`
+		Answers   string `json:"filter_answers,omitempty"`
 		PubFail   bool   `json:"poison_pub_fails"`
 		Published int    `json:"publish_calls"`
 		Returned  string `json:"middleware_returned"`
@@ -430,6 +517,12 @@ func describe(res *vlib.Result, w *world, cfg *config) {
 		parts = append(parts, cfg.Variant, cfg.CtxValues)
 		for i, h := range cfg.Handlers {
 			parts = append(parts, h.SubKind, h.SubOf != i, i > 0 && h.Topic == cfg.Handlers[0].Topic)
+			if cfg.Variant == "names" {
+				parts = append(parts, h.PubKind, h.Name == "", h.Topic == "")
+			}
+		}
+		if cfg.Variant == "stateful" {
+			parts = append(parts, cfg.TaggedErrs, cfg.Concurrent)
 		}
 	}
 	var sample []msgDesc
@@ -448,6 +541,9 @@ func describe(res *vlib.Result, w *world, cfg *config) {
 				pubOutcome = fmt.Sprint(a.calls[0].Err == nil)
 			}
 			parts = append(parts, a.plan.ErrKind, a.plan.OutKind, a.accept, pubOutcome, a.plan.MutKey != "", ms.plan.PreKeys, settled)
+			if cfg.Variant == "stateful" {
+				parts = append(parts, answersText(a.answers))
+			}
 			if a.err != nil && a.accept {
 				res.NonTrivial = true
 			}
@@ -455,7 +551,7 @@ func describe(res *vlib.Result, w *world, cfg *config) {
 			if len(reason) > 60 {
 				reason = reason[:60] + "..."
 			}
-			md.Attempts = append(md.Attempts, attemptDesc{ErrKind: a.plan.ErrKind, Reason: strings.ToValidUTF8(reason, "?"), Outputs: a.plan.OutKind, Accept: a.accept,
+			md.Attempts = append(md.Attempts, attemptDesc{ErrKind: a.plan.ErrKind, Reason: strings.ToValidUTF8(reason, "?"), Outputs: a.plan.OutKind, Accept: a.accept, Answers: answersText(a.answers),
 				PubFail: a.plan.PubFail, Published: len(a.calls), Returned: errText(a.gotErr), Settled: settled})
 		}
 		parts = append(parts, "|")
